@@ -120,18 +120,17 @@ def container_correspondence(ctx, path, desc, what):
     try:
         h, _ = spec.read_header(path)
         lay = h.layout()
-        if lay.is2d:
-            return
-        req = (f"container {lay.n[0]} {lay.n[1]} {lay.n[2]} {lay.bs[0]} {lay.bs[1]} {lay.bs[2]} {lay.u} {lay.q} {h.version} "
-               f"{h.n_header_blocks} {h.array_bytes} {h.n_arrays}")
-        ctx.stats['corr_requests'] += 1
-        ans = m.ask(req)
-        with SgzReader(path) as r:
-            from seismic_zfp.utils import FileOffset
-            offs = sorted(set(int(v) for v in r.segy_traceheader_template.values() if isinstance(v, FileOffset)))
-        real = f"{h.data_blocks} | {' '.join(str(o) for o in offs)} | {os.path.getsize(path)}"
-        if ans != real:
-            ctx.corr_fail('Model.Container', req, ans[:200], real[:200], dict(desc, what=what))
+        if not lay.is2d:
+            req = (f"container {lay.n[0]} {lay.n[1]} {lay.n[2]} {lay.bs[0]} {lay.bs[1]} {lay.bs[2]} {lay.u} {lay.q} {h.version} "
+                   f"{h.n_header_blocks} {h.array_bytes} {h.n_arrays}")
+            ctx.stats['corr_requests'] += 1
+            ans = m.ask(req)
+            with SgzReader(path) as r:
+                from seismic_zfp.utils import FileOffset
+                offs = sorted(set(int(v) for v in r.segy_traceheader_template.values() if isinstance(v, FileOffset)))
+            real = f"{h.data_blocks} | {' '.join(str(o) for o in offs)} | {os.path.getsize(path)}"
+            if ans != real:
+                ctx.corr_fail('Model.Container', req, ans[:200], real[:200], dict(desc, what=what))
         # K: Model/Header: the reader's parsed fields == Header.parse of the bytes; Header.make of those fields == the bytes
         raw = open(path, 'rb').read(76)
         with SgzReader(path) as r:
@@ -139,10 +138,11 @@ def container_correspondence(ctx, path, desc, what):
                 import struct as _st
                 ival = int(_st.unpack('<i', raw[28:32])[0])
                 rate_q = int(round(4 * r.rate))
-                fields = [r.n_header_blocks, r.n_samples, r.n_xlines, r.n_ilines, int(r.zslices[0]),
-                          int(r.xlines[0]) if r.n_xlines else 0, int(r.ilines[0]) if r.n_ilines else 0, ival,
-                          int(r.xlines[1] - r.xlines[0]) if r.n_xlines > 1 else int(_st.unpack('<i', raw[32:36])[0]),
-                          int(r.ilines[1] - r.ilines[0]) if r.n_ilines > 1 else int(_st.unpack('<i', raw[36:40])[0]),
+                two_d = r.is_2d   # 2D layout: no 3D geometry words at all (bytes 8-15, 20-27, 32-39 zero)
+                fields = [r.n_header_blocks, r.n_samples, 0 if two_d else r.n_xlines, 0 if two_d else r.n_ilines, int(r.zslices[0]),
+                          0 if two_d else int(r.xlines[0]), 0 if two_d else int(r.ilines[0]), ival,
+                          0 if two_d else (int(r.xlines[1] - r.xlines[0]) if r.n_xlines > 1 else int(_st.unpack('<i', raw[32:36])[0])),
+                          0 if two_d else (int(r.ilines[1] - r.ilines[0]) if r.n_ilines > 1 else int(_st.unpack('<i', raw[36:40])[0])),
                           rate_q, r.blockshape[0], r.blockshape[1], r.blockshape[2], r.compressed_data_diskblocks,
                           r.header_entry_length_bytes, r.n_header_arrays, r.tracecount, r.file_version.encoding]
                 fl = ' '.join(str(int(v)) for v in fields)
